@@ -331,6 +331,7 @@ class H2Protocol:
     async def _create_stream(
         self, request: Union[h2.events.RequestReceived, _SyntheticRequest]
     ) -> None:
+        raw_path = b""  # A plain CONNECT request has no :path
         for name, value in request.headers:
             if name == b":method":
                 method = value.decode("ascii").upper()
